@@ -1149,7 +1149,7 @@ pub fn gen_prog(r: &mut Rng, root: &J, o: &GenOpts) -> Prog {
 fn add_adversarial(r: &mut Rng, p: &mut Prog, _root: &J) {
     let n = 1 + r.usize(3);
     for _ in 0..n {
-        let k = r.below(19);
+        let k = r.below(20);
         let name = format!("adv{}", p.rules.len() + 1);
         let q = |parts: Vec<Part>| Query { some: false, parts };
         let var = |v: &str| Part::Var(v.to_string());
@@ -1268,8 +1268,25 @@ fn add_adversarial(r: &mut Rng, p: &mut Prog, _root: &J) {
                 };
                 lets.push(Let { name: "fe".into(), val: Arg::Func(Box::new(f)) });
                 lines.push(Line { alts: vec![Clause::Cmp(Cmp { not: false, q: q(vec![var("fe")]), op: Op::Exists, opnot: r.chance(1, 2), rhs: None, msg: None })] });
-                // ... and every function with a FIRST argument that selects nothing (an empty
-                // list, which is not the same as an unresolved value)
+            }
+            19 => {
+                // every function with a FIRST argument that selects nothing: an EMPTY list (a
+                // filter no element passes), which is not the same as an unresolved value
+                let container = match _root {
+                    J::Map(kv) => kv.iter().find_map(|(k, v)| match v {
+                        J::Map(m) if !m.is_empty() && m.iter().all(|(_, x)| matches!(x, J::Map(_))) => Some((k.clone(), true)),
+                        J::List(l) if !l.is_empty() && l.iter().all(|x| matches!(x, J::Map(_))) => Some((k.clone(), false)),
+                        _ => None,
+                    }),
+                    _ => None,
+                };
+                let never = Part::Filter { cap: None, lines: vec![Line { alts: vec![Clause::Cmp(Cmp { not: false, q: q(vec![Part::Key("zz_no".into())]), op: Op::Eq, opnot: false, rhs: Some(Rhs::Lit(J::Str("zz never".into()))), msg: None })] }] };
+                let empty_q = match container {
+                    Some((k, true)) => q(vec![Part::Key(k), Part::Star, never, Part::Key("zz_prop".into())]),
+                    Some((k, false)) => q(vec![Part::Key(k), never, Part::Key("zz_prop".into())]),
+                    None => q(vec![Part::This, Part::Star, never]),
+                };
+                lets.push(Let { name: "e".into(), val: Arg::Query(empty_q) });
                 let e1 = Arg::Query(q(vec![var("e")]));
                 let f1 = match r.below(8) {
                     0 => Func { name: "join".into(), args: vec![e1, Arg::Lit(J::Str(",".into()))] },
